@@ -835,7 +835,9 @@ def body_adapted_pca(case, ctx):
 def long_run_cases(draw):
     cls = draw(st.sampled_from(["gibbs", "pca", "hmc", "gibbs"]))
     d = draw(st.integers(1, 2)) if cls != "pca" else draw(st.integers(1, 2))
-    return {"seed": draw(st.integers(0, 2**31)), "cls": cls, "d": d, "shape": draw(st.sampled_from(["flat", "broad", "broad"])),
+    # "far-limit": a half-normal on x >= 0 whose upper limit (1e20 .. 1e300) stands for "none" - as users write it
+    return {"seed": draw(st.integers(0, 2**31)), "cls": cls, "d": d, "shape": draw(st.sampled_from(["flat", "broad", "broad", "far-limit"])),
+            "far_log": draw(st.sampled_from([20.0, 30.0, 300.0])),
             "rel_sd": draw(st.floats(0.7, 3.0)), "lo": [draw(st.floats(-2, 2)) for _ in range(d)], "side": [10 ** draw(st.floats(-1, 1)) for _ in range(d)],
             # how the two limits of a Gibbs parameter are declared: as boundaries, or as non-negativity plus an upper boundary alone
             "limit_style": draw(st.sampled_from(["boundaries", "boundaries", "nonneg-then-upper", "upper-then-nonneg"])),
@@ -857,8 +859,12 @@ def body_long_run(case, ctx):
     if style != "boundaries":
         lo = np.zeros(d)
     hi = lo + side
-    centre = 0.5 * (lo + hi)
-    sd = case["rel_sd"] * side
+    far = case["shape"] == "far-limit"
+    if far:
+        # support [0, 1e30]: the density N(0, side^2) restricted to x >= 0
+        lo, hi, style = np.zeros(d), np.full(d, 10.0 ** case.get("far_log", 30.0)), "boundaries"
+    centre = 0.5 * (lo + hi) if not far else np.zeros(d)
+    sd = case["rel_sd"] * side if not far else side.copy()
     flat = case["shape"] == "flat"
     T = 1.0 if (flat or cls == "hmc") else case["T"]
 
@@ -874,7 +880,7 @@ def body_long_run(case, ctx):
     with warnings.catch_warnings():
         warnings.simplefilter("ignore")
         if cls == "gibbs":
-            ch = GibbsChain(posterior=logp, start=centre.copy(), widths=0.3 * side, temperature=T, display_progress=False)
+            ch = GibbsChain(posterior=logp, start=(centre if not far else side).copy(), widths=0.3 * side, temperature=T, display_progress=False)
             for i in range(d):
                 if style == "boundaries":
                     ch.set_boundaries(i, (float(lo[i]), float(hi[i])))
@@ -885,9 +891,9 @@ def body_long_run(case, ctx):
                     ch.set_boundaries(i, (-np.inf, float(hi[i])))
                     ch.set_non_negative(i, True)
         elif cls == "pca":
-            ch = PcaChain(posterior=logp, start=centre.copy(), widths=0.3 * side, temperature=T, bounds=(lo.copy(), hi.copy()), display_progress=False)
+            ch = PcaChain(posterior=logp, start=(centre if not far else side).copy(), widths=0.3 * side, temperature=T, bounds=(lo.copy(), hi.copy()), display_progress=False)
         else:
-            ch = HamiltonianChain(posterior=logp, grad=grad, start=centre.copy(), epsilon=0.1 * float(side.min()), bounds=(lo.copy(), hi.copy()), display_progress=False)
+            ch = HamiltonianChain(posterior=logp, grad=grad, start=(centre if not far else side).copy(), epsilon=0.1 * float(side.min()), bounds=(lo.copy(), hi.copy()), display_progress=False)
     n = case["steps"]
     with np.errstate(all="ignore"), warnings.catch_warnings():
         warnings.simplefilter("ignore")
@@ -906,6 +912,8 @@ def body_long_run(case, ctx):
         sdT = sd[i] * np.sqrt(T)
         if flat:
             cdf = lambda x, a=lo[i], w=side[i]: np.clip((x - a) / w, 0, 1)
+        elif far:
+            cdf = lambda x, s_=sdT: np.clip(2 * stats.norm.cdf(x / s_) - 1, 0, 1)
         else:
             za, zb = (lo[i] - centre[i]) / sdT, (hi[i] - centre[i]) / sdT
             cdf = lambda x, c=centre[i], s_=sdT, za=za, zb=zb: (stats.norm.cdf((x - c) / s_) - stats.norm.cdf(za)) / (stats.norm.cdf(zb) - stats.norm.cdf(za))
